@@ -25,7 +25,7 @@ def one(sid: str) -> tuple[str, bool, str]:
         r = subprocess.run(["patch", "-p1", "-s", "-i", os.path.join(d, "patch.diff")], cwd=tmp, capture_output=True, text=True)
         if r.returncode:
             return sid, False, "patch does not apply: " + (r.stdout + r.stderr).strip()[:200]
-        env = dict(os.environ, VERIF_REPO=tmp)
+        env = dict(os.environ, VERIF_REPO=tmp, VERIF_NO_STABILITY="1")
         o = subprocess.run(["/venv/bin/python", os.path.join(HERE, "check"), prop, "--tier", "thorough", "--no-write", "--no-controls"],
                            capture_output=True, text=True, env=env, timeout=600)
         rules = sorted({l.split(" ")[1] for l in o.stdout.splitlines() if " -- " in l and not l.startswith("KNOWN") and len(l.split(" ")) > 1})
